@@ -163,6 +163,10 @@ func poolScenarios(tier string) []*PoolScenario {
 			Scripts: map[string][]PoolOp{"c1": {set(1, false), add(1), set(2, false), set(1, true), set(2, false), add(2)}}, Target: 2, Live: true},
 		{Name: "w2-shrink-nowait-regrow", MaxW: 3, Tasks: 2,
 			Scripts: map[string][]PoolOp{"c1": {set(2, false), add(1), set(1, false), set(2, false), add(2)}}, Target: 2, Live: true},
+		{Name: "w2-waitall-vs-shrink", MaxW: 2, Tasks: 1,
+			Scripts: map[string][]PoolOp{"c1": {add(1), wa}, "c2": {set(2, false), set(1, false)}}, Target: -1, Live: false}, // WaitAll keeps waking the workers: no convergence claim
+		{Name: "w3-waitall-vs-shrink2", MaxW: 3, Tasks: 2,
+			Scripts: map[string][]PoolOp{"c1": {add(1), add(2), wa}, "c2": {set(3, false), set(1, false)}}, Target: -1, Live: false},
 		{Name: "w2-waitall-vs-adder", MaxW: 2, Tasks: 2,
 			Scripts: map[string][]PoolOp{"c1": {set(2, false), add(1), wa}, "c2": {add(2)}}, Target: 2, Live: true},
 	}
